@@ -71,12 +71,60 @@ def collect(chk, pid, jobs):
                 chk.add_violation(clause, sig, {'trace': tid, 'line': line, 'event': ev}, {'job': job, 'line': line})
 
 
+SYS_PROPS = dict(invariants=['SYS_ExactlyOnce', 'SYS_ViewsTruthful', 'SYS_IdleMeansIdle', 'SYS_Rest'], properties=['SYS_ReloadOnlyWhenTrulyAllowed', 'SYS_NoDispatchWhileInactive'])
+
+
+def composition(chk, pid, thorough, seed, rnd):
+    '''spec/System.tla: the crossroads on top of the REAL scheduler / farm; the C12 conditions judged against ground truth'''
+    sc = {'MaxRun': '2', 'MaxSubmit': '2', 'MaxCycle': '1'}
+    chk.mc('mc_system', 'System.tla', dict(spec='Spec', constants=sc, **SYS_PROPS))
+    cfg = os.path.join(chk.work, 'gen_system.cfg')
+    tlc.write_cfg(cfg, spec='GenSpec', constants=sc, extra=['VIEW View', 'ACTION_CONSTRAINT ' + ('Emit' if thorough else 'EmitS10')])
+    res = tlc.run('System_Gen.tla', cfg, workers=core.NPROC if not thorough else 1, timeout=1800, out_file=os.path.join(chk.work, 'gen_system.out'))
+    if not res.ok:
+        raise core.Machinery(f'generation gen_system failed: {res.error or res.violated}')
+    chk.mc_runs.append(dict(res.summary(), name='gen_system', module='System_Gen.tla'))
+    hs = [json.loads(r[1])['h'] for r in tlc.printed(res, 'SCHED')]
+    if not thorough:
+        rnd.shuffle(hs)
+        hs = hs[:1200]
+    jobs = [{'id': i, 'events': h, 'drain': True} for i, h in enumerate(hs)]
+    files = chk.run_harness('compose_h', jobs)
+    chk.traces += len(jobs)
+    rows = chk.validate('System_Trace.tla', dict(spec='TraceSpec', constants={'MaxRun': '1000000', 'MaxSubmit': '1000000', 'MaxCycle': '1000000'}, extra=['POSTCONDITION AllConsumed']), files)
+    nf = 0
+    for fn in files:
+        with open(fn) as f:
+            for ln in f:
+                for st in json.loads(ln)['steps']:
+                    nf += sum(1 for x in st['obs']['fires'] if x['accepted'] and x['src'] in ('now', 'poller'))
+    chk.counters.update(system_schedules=len(jobs), system_reloads_judged_against_ground_truth=nf)
+    for r in rows['DRIFT']:
+        chk.drift += 1
+        if len(chk.drift_samples) < 5:
+            chk.drift_samples.append({'system_trace': r[1], 'line': r[2], 'ev': r[3], 'events': jobs[r[1]]['events']})
+    for _tag, tid, line, ev, bad in rows['CLAUSE']:
+        for clause in sorted(bad['set']):
+            job = jobs[tid]
+            kinds = [e['ev'] + (':' + str(e.get('p') or e.get('k') or e.get('x') or '')).rstrip(':') for e in job['events']]
+            sig = 'system:' + (','.join(kinds[: line - 1]) if line - 1 <= len(kinds) else ','.join(kinds) + ',drain')
+            chk.add_violation(pid + '.' + clause, sig, {'trace': tid, 'line': line, 'event': ev}, {'system_job': job, 'line': line})
+
+
 def run(pid, tier, seed, replay=None):
     chk = core.Check(pid, tier, seed)
     rnd = random.Random(seed)
     if replay:
         with open(replay) as f:
             rp = json.load(f)['replay']
+        if 'system_job' in rp:
+            files = chk.run_harness('compose_h', [dict(rp['system_job'], id=0)])
+            rows = chk.validate('System_Trace.tla', dict(spec='TraceSpec', constants={'MaxRun': '1000000', 'MaxSubmit': '1000000', 'MaxCycle': '1000000'}, extra=['POSTCONDITION AllConsumed']), files)
+            for _tag, tid, line, ev, bad in rows['CLAUSE']:
+                for clause in sorted(bad['set']):
+                    chk.add_violation(pid + '.' + clause, 'replay', {'line': line, 'event': ev}, rp)
+            chk.traces = 1
+            return chk.finish('replay of one recorded composed schedule')
         collect(chk, pid, [rp['job']])
         return chk.finish('replay of one recorded schedule')
     thorough = tier == 'thorough'
@@ -93,6 +141,8 @@ def run(pid, tier, seed, replay=None):
     jobs = [{'id': i, 'events': h, 'drain': True} for i, h in enumerate(trans + sim)]
     chk.samples = [j['events'] for j in rnd.sample(jobs, min(3, len(jobs)))]
     collect(chk, pid, jobs)
+    if pid == 'C12':
+        composition(chk, pid, thorough, seed, rnd)
     nontriv = {json.dumps(j['events'], sort_keys=True) for j in jobs if any(e['ev'] in ('SubmitEnd', 'CmdReset', 'DispatchArchive') for e in j['events'])}
     for k in ('update_triggers_accepted', 'poller_fires', 'rejections', 'refusals', 'rearmed_in_callback', 'composite_steps'):
         if not chk.counters.get(k) and not chk.violations:
